@@ -73,5 +73,9 @@ class Client:
                 properties=None):
         self._mid += 1
         self.published.append((topic, payload, properties, retain, qos))
+        # driver aid: messages the network thread dispatches before publish() has returned
+        hook, self.publish_hook = getattr(self, "publish_hook", None), None
+        if hook is not None:
+            hook()
         self.pub_event.set()
         return MQTTMessageInfo(self._mid)
